@@ -397,18 +397,47 @@ def gt_reads(path, ch):
                 if r.reference_name == contig and r.cigartuples and not r.is_unmapped]
 
 
-def gt_partial_mnp(gene, path):
-    """some read shows a non-reference base on a component of a catalogued multi-nucleotide substitution without
-    showing the complete substitution (it ends inside it, or differs on one of the bases)"""
-    mnps = [(p, op) for (p, op) in gene.mutations if sam_is_mnp(op)]
+def gt_strand_anchor(gene, path):
+    """Defect class /strand-anchor of the build comparison.  The evidence of a catalogued variant that spans more than
+    one base is kept at ONE genome position (multi-nucleotide substitution and multi-base deletion: the lowest position
+    of the span; insertion [p, insX]: the base before it), which is the other end of the variant on the other strand.
+    The reference support of the site is read at that base, so a read that shows something else than the reference on
+    a base of the span without showing the complete variant (it ends inside a multi-nucleotide substitution, or has a
+    mismatch / deleted base there) changes the fit on one strand only.
+    True iff such a read exists (computed from the file and the catalogue only).
+    Witnesses (unchanged tree, identical evidence in RefSeq terms, same solutions):
+      GTB *1.002 + *5.001 + extra *2.001 (6x), phase=false: a read ends inside 34T.C>A.A -> major score 22.31 (hg38) vs 22.23;
+      GTB *2.001 + *6.001, phase=false, one read with a mismatch on the first base of 11delGT -> 0.743 (hg38) vs 0.690 (hg19)."""
+    spans = []
+    for (p, op) in gene.mutations:
+        if sam_is_mnp(op):
+            spans.append((p, op, [q for q, _ in sam_mnp_parts(p, op)]))
+        elif op[:3] == "del" and "ins" not in op and len(op) > 4:
+            spans.append((p, op, list(range(p, p + len(op) - 3))))
+        elif op[:3] == "ins":
+            spans.append((p, op, [p, p + 1]))
     out = False
     for start, cigar, seq in gt_reads(path, gene.chr):
         al = sam_aligned(start, cigar)
-        for p, op in mnps:
-            parts = sam_mnp_parts(p, op)
-            if any(q in al and seq[al[q]] != gene[q] for q, _ in parts) and not sam_shows_mnp(gene, al, seq, p, op):
+        dels = sam_deleted(start, cigar)
+        for p, op, span in spans:
+            complete = (sam_shows_mnp(gene, al, seq, p, op) if sam_is_mnp(op)
+                        else (all(q in dels for q in span) and (p - 1) not in dels and (span[-1] + 1) not in dels) if op[:3] == "del"
+                        else False)
+            if not complete and any((q in dels) or (q in al and seq[al[q]] != gene[q]) for q in span):
                 out = True
     return out
+
+
+def gt_contains(big, small):
+    return all(any(gt_same(x, y) for y in big) for x in small)
+
+
+def gt_same_solutions(a, b):
+    """the same solutions (C13): every solution of one run is a solution of the other one; the order among equally
+    good solutions and a solution listed twice are not compared here (C10)"""
+    return (a is None and b is None) or (a is not None and b is not None and sorted(a) == sorted(b)
+                                         and all(gt_contains(a[k], b[k]) and gt_contains(b[k], a[k]) for k in a))
 
 
 @contract("aldy.genotype.genotype#build", symbolic=False)
@@ -417,30 +446,29 @@ def _(gene_db, sam_path, profile_name, output_file, cn_region, cn_solution, geno
     # build of the generated database (opposite strand, different offset)
     requires(other["genome"] != genome)
     phased = gt_typed(True, params.get("phase", True))
-    # the evidence of a multi-nucleotide substitution is kept at its first genome position, which is the other end
-    # of the substitution on the other strand: reads showing only a part of one get their own label
-    partial = gt_partial_mnp(Gene(gene_db, genome=genome), sam_path)
+    # own label for the inputs of the defect class /strand-anchor (see gt_strand_anchor)
+    partial = gt_strand_anchor(Gene(gene_db, genome=genome), sam_path)
     may_raise(AldyException)
     # C13: "The same sample evidence expressed against either supported genome build - and, for a gene database that
     # maps the gene to opposite strands in two builds, against either strand - yields the same gene structures, the
     # same major and minor star-allele solutions with the same scores, and the same added/lost variants when these
     # are expressed in RefSeq terms."
-    ensures(gt_same(gt_view(gt_cached(("other", sam_path), lambda: gt_run(gene_db, other["sam_path"], other["profile_name"], None,
+    ensures(gt_same_solutions(gt_view(gt_cached(("other", sam_path), lambda: gt_run(gene_db, other["sam_path"], other["profile_name"], None,
                                                                          other["cn_region"], other["cn_solution"],
                                                                          other["genome"], False, None, params))[0], "structures"),
                     gt_view(result, "structures")), label="build/structures")
     for what in ["majors", "major-scores"]:
-        ensures(gt_same(gt_view(gt_cached(("other", sam_path), lambda: gt_run(gene_db, other["sam_path"], other["profile_name"], None,
+        ensures(gt_same_solutions(gt_view(gt_cached(("other", sam_path), lambda: gt_run(gene_db, other["sam_path"], other["profile_name"], None,
                                                                              other["cn_region"], other["cn_solution"],
                                                                              other["genome"], False, None, params))[0], what),
-                        gt_view(result, what)), label="build/" + what + ("/partial-mnp" if partial else ""))
+                        gt_view(result, what)), label="build/" + what + ("/strand-anchor" if partial else ""))
     # the refinement: with and without read phasing (own label: the phase term is keyed by genome positions)
     for what in ["minors", "scores"]:
-        ensures(gt_same(gt_view(gt_cached(("other", sam_path), lambda: gt_run(gene_db, other["sam_path"], other["profile_name"], None,
+        ensures(gt_same_solutions(gt_view(gt_cached(("other", sam_path), lambda: gt_run(gene_db, other["sam_path"], other["profile_name"], None,
                                                                              other["cn_region"], other["cn_solution"],
                                                                              other["genome"], False, None, params))[0], what),
                         gt_view(result, what)),
-                label="build/" + what + ("/partial-mnp" if partial else "") + ("/phased" if phased else ""))
+                label="build/" + what + ("/strand-anchor" if partial else "") + ("/phased" if phased else ""))
     ensures(gt_cached(("other", sam_path), lambda: gt_run(gene_db, other["sam_path"], other["profile_name"], None,
                                                           other["cn_region"], other["cn_solution"], other["genome"],
                                                           False, None, params))[0] is None, on_raise=True, label="build/error")
@@ -496,3 +524,112 @@ def _(gene, profile, cn_region, params, written, scenario):
         ensures(tuple(result.cn_region) == tuple(cn_region), label="bam/neutral-region")
         ensures(result.neutral_value == gt_region_depth(profile, cn_region), label="bam/neutral-value")
     modifies()
+
+
+# ----------------------------------------------------------------------------------------------------
+# C01  "A sample simulated from catalogued star-alleles is called as planted"
+
+def gt_is_deletion(gene, config):
+    return gene.cn_configs[config].kind == CNConfigType.DELETION
+
+
+def gt_planted_structure(gene, planted):
+    """planted: [(structure configuration, minor allele or None)] -> {configuration: copies}; the whole-gene deletion is
+    a copy without a configuration of its own in the structure stage's results"""
+    return gt_counter(c for c, _ in planted if not gt_is_deletion(gene, c))
+
+
+def gt_major_of(gene, minor):
+    return [name for name, a in gene.alleles.items() if minor in a.minors][0]
+
+
+def gt_definition(gene, major, minor):
+    """variants of a catalogued allele: those of its major allele and of the minor allele"""
+    return sorted({(m.pos, m.op) for m in gene.alleles[major].func_muts}
+                  | {(m.pos, m.op) for m in gene.alleles[major].minors[minor].neutral_muts})
+
+
+def gt_planted_majors(gene, planted):
+    return gt_counter(gt_major_of(gene, m) for c, m in planted if m is not None)
+
+
+def gt_planted_variants(gene, planted):
+    """'the variants of the simulated haplotypes', counted with multiplicity"""
+    return gt_counter(v for c, m in planted if m is not None for v in gt_definition(gene, gt_major_of(gene, m), m))
+
+
+def gt_called(gene, s):
+    """the alleles a solution reports (a deleted copy may be listed as the deletion allele: it carries nothing)"""
+    return [a for a in s.solution if not gt_is_deletion(gene, gene.alleles[a.major].cn_config)]
+
+
+def gt_called_variants(gene, s):
+    """variants of a reported solution with multiplicity: definition of each called minor allele + added - missing"""
+    return gt_counter(v for a in gt_called(gene, s)
+                      for v in (set(gt_definition(gene, a.major, a.minor)) | {(m.pos, m.op) for m in a.added})
+                      - {(m.pos, m.op) for m in a.missing})
+
+
+def gt_structure_of(s):
+    return {c: n for c, n in s.major_solution.cn_solution.solution.items() if n}
+
+
+def gt_indel_classes(gene, planted, realign, phased):
+    """defect classes (label suffixes) of a planted combination that carries catalogued indels:
+    /phase-record              (phase=true; the combination carries an insertion or a multi-nucleotide substitution)
+                               the per-read phase record can never agree with such a catalogued variant: an insertion is
+                               recorded at the NEXT reference base while the catalogue (and the realignment) place
+                               [p, insX] after base p, and a multi-nucleotide substitution is recorded as its single-base
+                               parts.  Every read of a carrying copy therefore contradicts that copy in the phasing term;
+                               the refinement then drops the variant from a copy or prefers another major combination.
+                               Witnesses: PTA hg38, 3 copies of *3.001 -> *3.001, *3.001, *(3.001 -48_49insC), score 2.5
+                               (exact, score 0 with phase=false); PTA hg38 *3.002 + *7#6.001 + extra *5.001 (34G.C>T.A):
+                               planted refinement 7.31 loses against *5.001, *7#1.001, *(9.001 +2 variants) 6.11
+                               (0.11 vs 2.11 with phase=false).
+    /neighbouring-indels       (realignment on)  one allele has two indels within 12 bp: the realignment step phases them
+                               into one complex variant and its "subsumed indel" guard drops both (zero support although
+                               the reads support both).  Witness: PTA hg19, *1.001 + *2.001 (11delAG, 19_20insGT), 20x per
+                               copy, 25 or 50 bp reads -> reported *1.001/*1.001, score 0.
+    /indels-without-realignment (indelpost=false) reads supporting an indel are also counted as not supporting it
+                               (sam.py: spanning-read count without the "off - on" correction of the long-read path), so
+                               an indel on 2 of 3 copies reads as 38/(57+38) = 1.2 copies.  Witness: PTA hg38,
+                               *3.001 + *7#11.001 + extra *11.001 -> *1.001,*3.001,*7#11.001 | *3.001,*7#1.001,*11.001."""
+    defs = [gt_definition(gene, gt_major_of(gene, m), m) for c, m in planted if m is not None]
+    indels = [[(p, op) for p, op in d if op[:3] in ("ins", "del")] for d in defs]
+    near = any(a < b and abs(a[0] - b[0]) <= 12 for d in indels for a in d for b in d)
+    return ("/neighbouring-indels" if (realign and near) else "") + \
+        ("/indels-without-realignment" if (not realign and any(indels)) else "") + \
+        ("/phase-record" if (phased and any(op[:3] == "ins" or sam_is_mnp(op) for d in defs for _, op in d)) else "")
+
+
+def gt_silent_mnp_class(gene, planted):
+    """/silent-mnp: the combination carries a catalogued multi-nucleotide substitution that is not function-altering;
+    it is never merged from its single-base observations (known finding F18), so the allele is reported without it.
+    Witness: PTA, *1.002 (44GT>TC) -> *(1.002 -rs44)."""
+    return "/silent-mnp" if any(sam_is_mnp(op) and not gene.is_functional((p, op)) for c, m in planted if m is not None
+                                for p, op in gt_definition(gene, gt_major_of(gene, m), m)) else ""
+
+
+@contract("aldy.genotype.genotype#planted", symbolic=False)
+def _(gene_db, sam_path, profile_name, output_file, cn_region, genome, params, rec, planted, scenario):
+    # `planted`: [(structure configuration, minor allele or None)] the error-free, uniformly deep reads were simulated from
+    gene = Gene(gene_db, genome=gt_build(sam_path, genome))
+    structure = gt_planted_structure(gene, planted)
+    majors = gt_planted_majors(gene, planted)
+    variants = gt_planted_variants(gene, planted)
+    indel_class = gt_indel_classes(gene, planted, gt_typed(True, params.get("indelpost", True)),
+                                   gt_typed(True, params.get("phase", True)))
+    mnp_class = gt_silent_mnp_class(gene, planted)
+    # C01: "genotyping its alignments reports that combination of major star-alleles among its best solutions whenever
+    # the planted gene structure is an optimal explanation of the region depths"
+    # (antecedent: the planted structure is among the structures the structure stage returned; gap = 0: the reported
+    # solutions are the best ones)
+    ensures(implies(structure in rec.cn_dicts,
+                    any(gt_counter(a.major for a in gt_called(gene, s)) == majors for s in result[gene_db])),
+            label="planted-majors-among-best" + indel_class)
+    # "Every best solution reports alleles whose variants, counted with multiplicity, are exactly the variants of the
+    # simulated haplotypes: nothing is added and nothing is lost."
+    ensures(all(gt_called_variants(gene, s) == variants for s in result[gene_db] if gt_structure_of(s) == structure),
+            label="variants-exact" + indel_class + mnp_class)
+    # no error for a planted, adequately covered sample (no raises / may_raise clause: any exception is a violation)
+    modifies(output_file, rec)
